@@ -148,7 +148,8 @@ func merge(
 		case hasNewValue && hasOldValue:
 			// merge and compress
 			encoder.AppendTime(bit.One)
-			encoder.AppendValue(math.Float64bits(fieldType.AggType().Aggregate(newValue, oldValue)))
+			// the compressed data is older than the write buffer: Aggregate(old, new)
+			encoder.AppendValue(math.Float64bits(fieldType.AggType().Aggregate(oldValue, newValue)))
 		case !hasNewValue && hasOldValue:
 			// compress old value
 			encoder.AppendTime(bit.One)
